@@ -9,6 +9,7 @@ import (
 
 	"filippo.io/age/internal/zzverif/ev"
 	"filippo.io/age/internal/zzverif/keys"
+	"filippo.io/age/internal/zzverif/lab"
 	"filippo.io/age/internal/zzverif/refage"
 	"golang.org/x/crypto/ssh"
 )
@@ -97,4 +98,44 @@ func c14cli(c *ev.Ctx) {
 		}
 	}
 	c.Sample(map[string]interface{}{"line": "=\" \\", "through": "parseRecipientsFile"})
+
+	// header shapes through cmd/age's own identities (age -d without -i: LazyScryptIdentity; passphrase-protected identity
+	// file: EncryptedIdentity): errors, never panics
+	c.Part("cmd-age-identities-on-odd-headers")
+	c.Bound("LazyScryptIdentity and EncryptedIdentity on reference-built files with 0..3 stanzas over {none, scrypt without arguments, scrypt with 1 / 3 arguments, unknown type, X25519}: no panic")
+	if c.Shard == 0 {
+		fk := lab.Plain(16, 21)
+		good, _ := refage.WrapScrypt(fk, "pw", lab.Plain(16, 22), 2)
+		shapes := []refage.Stanza{{Type: "scrypt"}, {Type: "scrypt", Args: []string{good.Args[0]}, Body: good.Body}, {Type: "scrypt", Args: []string{good.Args[0], "2", "x"}, Body: good.Body}, {Type: "zz", Args: []string{"a"}, Body: []byte("b")}, {Type: "X25519", Args: []string{"AAAA"}, Body: lab.Plain(32, 23)}, good}
+		var lists [][]refage.Stanza
+		lists = append(lists, nil)
+		for i := range shapes {
+			lists = append(lists, []refage.Stanza{shapes[i]})
+			for j := range shapes {
+				lists = append(lists, []refage.Stanza{shapes[i], shapes[j]})
+			}
+		}
+		lists = append(lists, []refage.Stanza{shapes[3], shapes[0], shapes[5]})
+		for li, st := range lists {
+			file := refage.BuildFile(fk, st, lab.Plain(16, 24), []byte("x"), refage.ChunkSizeV1)
+			id := fmt.Sprintf("hdr%d", li)
+			c.Eval(2)
+			c.DistinctOnce(ev.HashStr(id))
+			lazy := &LazyScryptIdentity{Passphrase: func() (string, error) { return "pw", nil }}
+			if res := lab.DecryptBytes(file, false, lazy); res.Panic != "" {
+				c.Fail("panic/cmd-age-LazyScryptIdentity", id, "panic: "+res.Panic, map[string]interface{}{"stanzas": len(st)})
+			}
+			func() {
+				defer func() {
+					if r := recover(); r != nil {
+						c.Fail("panic/cmd-age-EncryptedIdentity", id, fmt.Sprintf("panic: %v", r), map[string]interface{}{"stanzas": len(st)})
+					}
+				}()
+				ei := &EncryptedIdentity{Contents: file, Passphrase: func() (string, error) { return "pw", nil }, NoMatchWarning: func() {}}
+				ei.Unwrap(lab.FromRef([]refage.Stanza{good}))
+				ei.Recipients()
+			}()
+		}
+		c.Sample(map[string]interface{}{"file": "no stanza at all", "identity": "LazyScryptIdentity (age -d without -i)"})
+	}
 }
